@@ -474,7 +474,7 @@ func (c18) Run(sc *Scenario) *Verdict {
 	if len(sc.Ops) >= 3 {
 		v.probe("sequence-of-3+")
 	}
-	for _, k := range sc.OrderKeys {
+	for ki, k := range sc.OrderKeys {
 		// at most once for whole-spec expansion
 		ex := ExpandWorld(w, Opts{}, nil, k, StepBudgetDefault, "")
 		v.Steps += ex.Out.Steps
@@ -493,6 +493,28 @@ func (c18) Run(sc *Scenario) *Verdict {
 			shared = NewHCache()
 		}
 		fetched := map[string]bool{} // documents the shared cache has seen loaded
+		if ki%2 == 0 {
+			// the shared cache starts its life with a call during which the loader refuses every document
+			// but the root (an outage); whatever that call returns, nothing of the outage may stick to the
+			// cache: the later calls on it must still equal the calls without a cache
+			var burst []sim.Fault
+			for _, u := range keys(w.Docs) {
+				if u != w.Root {
+					burst = append(burst, sim.Fault{URL: u, Kind: sim.FRefuse, Arg: len(burst)})
+				}
+			}
+			for _, op := range sc.Ops {
+				if usesCache(op.Entry) && len(burst) > 0 {
+					o := op
+					o.Cache = "reuse"
+					res := ExecOp(o, &Env{World: w, Store: sim.NewStore(w.Docs, burst), OrderKey: k, Budget: StepBudgetDefault, Cache: shared})
+					v.Steps += res.Out.Steps
+					v.addFaults(res.Log)
+					v.probe("shared-cache-first-used-during-an-outage")
+					break
+				}
+			}
+		}
 		for oi, op := range sc.Ops {
 			if !usesCache(op.Entry) {
 				continue
